@@ -95,6 +95,23 @@ def r11_1(ctx):
     ctx.decide('R11.1', k2.qual, 'row index i = indices[idx]', any(src(s) == 'i = indices[idx]' for s in w2.body), w2)
     # driver
     g = ctx.prog.func(S + '.gauss_seidel')
+    # the matrix handed to the CSR kernels is the caller's matrix in another STORAGE FORMAT: every rebinding of A is a
+    # format conversion (csr_matrix(A), A.tocsr(), asformat); a transpose or any arithmetic changes the operator that is relaxed
+    for s in own_nodes(g.node):
+        if isinstance(s, ast.Assign) and any(isinstance(x, ast.Name) and x.id == 'A' for x in s.targets):
+            v = s.value
+            conv = (isinstance(v, ast.Call) and ((call_name(v) or '').split('.')[-1] in ('csr_matrix', 'csr_array', 'tocsr', 'asformat', 'asarray', 'ascontiguousarray')
+                                                 or (isinstance(v.func, ast.Attribute) and v.func.attr in ('tocsr', 'asformat', 'toarray', 'todense'))))
+            transposed = any(isinstance(x, ast.Attribute) and x.attr in ('T', 'H') for x in ast.walk(v)) or \
+                any(isinstance(x, ast.Call) and isinstance(x.func, ast.Attribute) and x.func.attr in ('transpose', 'conj', 'conjugate', 'getH') for x in ast.walk(v))
+            conds = ' and '.join(t_ for (t_, _p, _n) in guards.path_conditions(s)) or 'always'
+            if transposed:
+                ctx.violated('R11.1', g.qual, 'A is only converted between storage formats (%s)' % conds, s,
+                             '`%s` replaces the matrix by its transpose: the CSR arrays of A.T are the CSC arrays of A, so the kernels relax A^T x = b; '
+                             'identical for symmetric matrices, wrong for every nonsymmetric one' % src(s))
+            else:
+                ctx.decide('R11.1', g.qual, 'A is only converted between storage formats (%s): %s' % (conds, src(s)[:60]), conv or None, s,
+                           'same operator, CSR storage')
     t = None
     for s in own_nodes(g.node):
         if isinstance(s, ast.Assign) and src(s.targets[0]).replace(' ', '') == '(start,end,step)':
